@@ -10,6 +10,7 @@ import (
 func init() {
 	execs["ENC"] = execEnc
 	execs["DEC"] = execDec
+	execs["REENC"] = execReenc
 	execs["RT"] = execRT
 	execs["ENCH"] = execEnch
 }
@@ -186,4 +187,18 @@ func execEnch(in string) string {
 		applyOp(&st, op)
 	}
 	return guard(func() string { return errTok(st.c.Validate()) }) + " " + encTok(st.c)
+}
+
+// REENC <hex>: DecodeClaimsFromCBOR, then EncodeClaimsToCBOR of the result
+func execReenc(in string) string {
+	f := fields(in)
+	c, err := psatoken.DecodeClaimsFromCBOR(parseHexTok(f[1]))
+	if err != nil {
+		return "err"
+	}
+	b, err := psatoken.EncodeClaimsToCBOR(c)
+	if err != nil {
+		return "encerr"
+	}
+	return "ok:" + hexTok(b)
 }
